@@ -101,8 +101,10 @@ class ExecResult:
 class Executor:
     """One executor process; plans are executed one after the other in-process."""
 
-    def __init__(self, variant, workdir, tag="w"):
+    def __init__(self, variant, workdir, tag="w", aslr_off=False, env_pad=0):
         self.variant = variant
+        self.aslr_off, self.env_pad = aslr_off, env_pad
+        self.max_id = -1          # largest instance id handed out so far by this process (reset on restart)
         self.exe = os.path.join(VERIF, "build", variant, "executor")
         self.workdir = workdir
         os.makedirs(workdir, exist_ok=True)
@@ -119,7 +121,13 @@ class Executor:
         env.pop("ASAN_OPTIONS", None)
         env.pop("TSAN_OPTIONS", None)
         env["LC_ALL"] = "C"
-        self.p = subprocess.Popen([self.exe], stdin=subprocess.PIPE, stdout=subprocess.PIPE, stderr=self.errf,
+        if self.env_pad:
+            env["VERIF_ENV_PAD"] = "x" * self.env_pad     # shifts the initial stack / environment layout
+        argv = [self.exe]
+        if self.aslr_off:
+            argv = ["setarch", os.uname().machine, "-R", self.exe]
+        self.max_id = -1
+        self.p = subprocess.Popen(argv, stdin=subprocess.PIPE, stdout=subprocess.PIPE, stderr=self.errf,
                                   cwd=self.workdir, env=env, bufsize=0)
         self.buf = b""
         self.restarts += 1
@@ -307,3 +315,14 @@ def sanitizer_key(stderr):
         frame = os.path.basename(m.group(2)) + ":" + m.group(1).split("(")[0]
         break
     return kind + "@" + frame
+
+
+def tsan_key(stderr):
+    """kind + first frame inside /repo of the last ThreadSanitizer report in a stderr tail"""
+    import re
+    i = stderr.rfind("WARNING: ThreadSanitizer:")
+    t = stderr[i:] if i >= 0 else stderr
+    m = re.search(r"WARNING: ThreadSanitizer: ([^\n(]+)", t)
+    kind = m.group(1).strip() if m else "report"
+    fm = re.search(r"#\d+ (\S+) (/repo/[^\s:]+)", t)
+    return kind + "@" + ((os.path.basename(fm.group(2)) + ":" + fm.group(1).split("(")[0]) if fm else "?")
